@@ -126,3 +126,13 @@ Theorem C16_json_parser_prompt : forall (pf : bytes -> option Z) k chunks evs e 
   (length evs <= S k)%nat /\ (length evs = S k -> e = JP.jeVisitor).
 Proof. exact JV.C16_json_parse_prompt. Qed.
 Print Assumptions C16_json_parser_prompt.
+
+From SF Require Core.Visitors Core.VisitorsProofs.
+(* The inline filter (visitors/expect_obj.go) in front of a visitor that fails from its k-th call
+   on: for EVERY event list the visitor is handed at most k+1 events, and it has been handed k+1
+   exactly when the run stopped with the visitor's error. *)
+Theorem C16_inline_filter : forall k evs log err done,
+  SF.Core.Visitors.eo_observe (Some k) evs = (log, err, done) ->
+  (length log <= S k)%nat /\ (length log = S k <-> err = SF.Core.Visitors.EoTarget).
+Proof. exact SF.Core.VisitorsProofs.C16_inline_filter_top. Qed.
+Print Assumptions C16_inline_filter.
